@@ -112,6 +112,7 @@ def adapters_c09(pid, tier, seed, log):
         "not_reproduced_on_rerun": r["not_reproduced"],
         "ureq_glue_observed": r["ureq_glue_observed"],
         "fault_outcomes": r["fault_outcomes"],
+        "request_headers_seen": r["request_headers_seen"],
         "error_variant_as_modelled": r["error_variant_as_modelled"],
         "wall_by_adapter_s": r["wall_by_adapter_s"], "wall_s": r["wall_s"],
     }
